@@ -342,8 +342,9 @@ type c01Case struct {
 	avoidB13 bool
 }
 
-func genC01Case(c *Ctx, i int) *c01Case {
-	r := c.Rng(i)
+func genC01Case(c *Ctx, i int) *c01Case { return genC01CaseR(c, c.Rng(i)) }
+
+func genC01CaseR(c *Ctx, r *gen.Rng) *c01Case {
 	cs := &c01Case{}
 	switch r.Intn(10) {
 	case 0, 1, 2:
